@@ -236,3 +236,40 @@ def rule_rxn_drop_bookkeeping(ck, repo, R):
                       f'{f.qualname}: `except {src(h.type) if h.type else ""}` can complete without decrementing the role counts: the dropped component still '
                       f'occupies a slot of its role and the next role loses its first molecule', file=f.file, line=h.lineno, func=f.qualname)
     ck.floor(R, 2)
+
+
+def rule_star_point_lookup(ck, repo, R):
+    """V3000 star atoms (`*`, attachment points of multi-centre bonds) are collected in star_points and never enter atom_map (the atom loop `continue`s before the
+    atom is numbered). In the bond block an id known to be a star point must therefore never be looked up in atom_map: the lookup can only fail."""
+    from .astutil import reach_conditions, enclosing_map
+    ck.rule(R, 'parse_mol_v3000: ids appended to star_points skip the atom_map assignment (append; continue), and no `atom_map[X]` is evaluated on a path where '
+               '`X in star_points` holds: in the star-bond branches the looked-up id is the OTHER end of the bond')
+    f = repo.func('chython.files.mdl.emol:parse_mol_v3000')
+    ck.require(f is not None, 'parse_mol_v3000 not found')
+    pm = enclosing_map(f.node)
+    # 1. disjointness is structural
+    apps = [n for n in ast.walk(f.node) if isinstance(n, ast.Call) and src(n.func) == 'star_points.append' and len(n.args) == 1]
+    ck.require(len(apps) == 1, 'parse_mol_v3000: star_points.append site not found')
+    st = pm[apps[0]]
+    blk = None
+    for field in ('body', 'orelse'):
+        b = getattr(pm.get(st), field, None)
+        if isinstance(b, list) and st in b:
+            blk = b
+    skips = blk is not None and any(isinstance(x, ast.Continue) for x in blk[blk.index(st) + 1:])
+    key = src(apps[0].args[0])
+    stores = [n for n in ast.walk(f.node) if isinstance(n, ast.Assign) and any(isinstance(t, ast.Subscript) and src(t.value) == 'atom_map' and src(t.slice) == key for t in n.targets)]
+    ck.decide(skips and len(stores) == 1 and stores[0].lineno > st.lineno, R, 'star-ids-not-numbered', key,
+              'a star point is no longer kept out of atom_map (append to star_points, continue, number the atom afterwards)', file=f.file, line=st.lineno, func=f.qualname)
+    # 2. no lookup of a known star id
+    n_look = 0
+    for n in ast.walk(f.node):
+        if isinstance(n, ast.Subscript) and isinstance(n.ctx, ast.Load) and src(n.value) == 'atom_map':
+            n_look += 1
+            k = src(n.slice)
+            known_star = any(isinstance(c, ast.Compare) and len(c.ops) == 1 and isinstance(c.ops[0], ast.In) and src(c.left) == k and src(c.comparators[0]) == 'star_points'
+                             for c in reach_conditions(n, f.node, pm))
+            ck.decide(not known_star, R, f'lookup:{k}@{n.lineno - f.lineno}', None,
+                      f'parse_mol_v3000 evaluates `atom_map[{k}]` where `{k} in star_points` holds: star points are not in atom_map, the lookup always fails ("invalid atoms number") '
+                      f'-- the other end of the bond was meant', file=f.file, line=n.lineno, func=f.qualname, construct=src(n))
+    ck.require(n_look >= 4, f'parse_mol_v3000: {n_look} atom_map lookups found, 4 confirmed by hand')
